@@ -257,6 +257,10 @@ func (x *Unit) spIdent(st *State, e *ast.Ident, c *specCtx) Val {
 			return x.constVal(cn.Val(), cn.Type())
 		}
 	}
+	if v := x.renamedVar(e.Name); v != nil {
+		x.note(fmt.Sprintf("contract name %s of %s read as the variable now called %s (renamed since the contract was written)", e.Name, x.name, v.Name()))
+		return x.readVar(st, v)
+	}
 	x.specErr(e, "unknown name %s", e.Name)
 	return Val{x.fresh("bad", SInt), nil}
 }
